@@ -8,7 +8,7 @@ MANIFEST = dict(
     design='4/C11')
 
 RULE = 'histories threading all three carriers (Session Report Request, Modification Response, Deletion Response), several reports per URR per message, URR removal and re-creation'
-GEN = dict(weights=dict(usa=24, mod=26, est=14, dele=8, asr=4, srr=4, dld=2), idpool=(1, 2, 3, 4, 5), big_seids=False)
+GEN = dict(usage_share=0.7, weights=dict(usa=24, mod=26, est=14, dele=8, asr=4, srr=4, dld=2), idpool=(1, 2, 3, 4, 5), big_seids=False)
 N_QUICK, N_THOROUGH = 110, 3000
 
 
